@@ -117,7 +117,68 @@ class C08(Profile):
                (cl.Tuner, 1), (cl.Bystander, 2.5), (fl.Rejector, 1.5)]
 
 
-PROFILES = {"C08": C08()}
+class C02(Profile):
+    name = "C02"
+    steps = (20, 40)
+    expected_probes = ["add_heralded_sub", "ancilla_inside_span",
+                       "herald_in_ne_out_on_parent_with_ancilla",
+                       "primitive_on_parent_with_ancilla"]
+
+    @property
+    def monitors(self):
+        from .monitors.c02 import WiringMonitor  # noqa: PLC0415
+        return [WiringMonitor]
+
+    clients = [(cl.Builder, 4), (cl.Composer, 4), (fl.Rejector, 0.4)]
+
+    def swarm(self, rng):
+        cfg = super().swarm(rng)
+        cfg["max_params"] = 0
+        cfg["p_param"] = 0.0
+        cfg["max_modes"] = rng.randint(3, 7)
+        cfg["max_circuits"] = rng.randint(5, 10)
+        return cfg
+
+
+class C09(Profile):
+    name = "C09"
+    steps = (25, 45)
+    expected_probes = ["rewrite_unpack", "rewrite_compress",
+                       "rewrite_remove_nonadj", "copy_plain", "copy_frozen"]
+
+    @property
+    def monitors(self):
+        from .monitors.c09 import RewriteMonitor  # noqa: PLC0415
+        return [RewriteMonitor]
+
+    clients = [(cl.Builder, 4), (cl.Composer, 2.5), (cl.Rewriter, 3),
+               (cl.Tuner, 1), (cl.Bystander, 0.5)]
+
+
+class C10(Profile):
+    name = "C10"
+    steps = (25, 45)
+    expected_probes = ["twin_compared", "twin_unbuildable",
+                       "invalid_value_surfaced", "rejected_update_checked"]
+
+    @property
+    def monitors(self):
+        from .monitors.c10 import ParamMonitor, TwinMonitor  # noqa: PLC0415
+        return [ParamMonitor, TwinMonitor]
+
+    clients = [(cl.Builder, 4), (cl.Composer, 2), (cl.Rewriter, 1.5),
+               (cl.Tuner, 4), (fl.Rejector, 1)]
+
+    def swarm(self, rng):
+        cfg = super().swarm(rng)
+        cfg["max_params"] = rng.randint(2, 6)
+        cfg["p_param"] = rng.choice([0.35, 0.5, 0.7])
+        cfg["weights"]["tuner"] = max(cfg["weights"]["tuner"], 2.0)
+        cfg["p_poison"] = rng.choice([0.05, 0.1, 0.2])
+        return cfg
+
+
+PROFILES = {"C08": C08(), "C02": C02(), "C09": C09(), "C10": C10()}
 
 
 def get(name: str) -> Profile:
